@@ -87,6 +87,8 @@ func (r *run) batteryScripts() [][]byte {
 	for i := range r.prod.khash {
 		if r.prod.khash[i] != (util.Uint160{}) {
 			s = append(s, callScript(r.prod.khash[i], "get", kKeys[0]))
+			s = append(s, callScript(r.prod.khash[i], "get", longKey))
+			s = append(s, callScript(r.prod.khash[i], "get", kKeys[(int(r.P.BC.BlockHeight())+i)%len(kKeys)]))
 			s = append(s, callScript(r.prod.khash[i], "find", []byte{0x01}))
 		}
 	}
